@@ -15,6 +15,7 @@ Step(e) ==
       [] e.op = "DecryptTruncated" -> e.i \in DOMAIN store /\ DecryptTruncated(e.i)
       [] e.op = "LoadStored"       -> LoadStored(e.shape, e.fm)
       [] e.op = "EncryptPair"      -> EncryptPair(e.key, e.m, e.pt, e.nested)
+      [] e.op = "Swap"             -> Swap
       [] e.op = "Assign"           -> Assign(e.alg, e.p)
       [] e.op = "LoadPlain"        -> LoadPlain(e.alg, e.p)
       [] e.op = "Challenge"        -> Challenge(e.q)
@@ -24,12 +25,13 @@ TraceNext == l <= Len(Traces[tid].events) /\ Step(Ev) /\ l' = l + 1 /\ UNCHANGED
 Has(r, f) == f \in DOMAIN r
 BadObs ==
     LET e == Ev IN
-    {n \in {"out", "sv", "ret", "store", "chal"} :
+    {n \in {"out", "sv", "ret", "store", "chal", "onfile"} :
         CASE n = "out"   -> ev'.out # e.out
           [] n = "sv"    -> Has(ev', "sv") /\ (~Has(e, "sv") \/ ev'.sv # e.sv)
           [] n = "ret"   -> Has(ev', "ret") /\ (~Has(e, "ret") \/ ev'.ret # e.ret)
           [] n = "store" -> store' # e.store
-          [] n = "chal"  -> chal' # e.chal}
+          [] n = "chal"  -> chal' # e.chal
+          [] n = "onfile" -> Has(e, "onfile") /\ onfile' # e.onfile}
 BadAct == {n \in {"C09_FreshSalt", "C09_Survives"} :
               CASE n = "C09_FreshSalt" -> ~A_FreshSalt [] n = "C09_Survives" -> ~A_Survives}
 Report ==
